@@ -10,8 +10,10 @@ def is_broken_exc(summary):
     return "BrokenProcessPool" in summary["mro"]
 
 
-def conclusive(res):
-    return res.outcome == "complete"
+def conclusive(res, orphans_ok=False):
+    if res.outcome == "complete":
+        return True
+    return orphans_ok and res.outcome in ("deadlock", "livelock") and not root_alive(res)
 
 
 def injected_kills(res):
